@@ -139,3 +139,22 @@ func TestVerifWitness_DQA4(t *testing.T) {
 	vq1WitRange(t, f, pql.GTE, 0, 1, 2)
 	vq1WitRange(t, f, pql.LTE, 0, 1, 2)
 }
+
+// DQA5: bitDepthMin/bitDepthMax wrapped around for a base near the int64 limits.
+func TestVerifWitness_DQA5(t *testing.T) {
+	const lo = -9223372036854775807
+	f := MustOpenField(OptFieldTypeInt(lo, -4611686018427387904))
+	defer f.Close()
+	if err := f.Reopen(); err != nil { // no value yet: base becomes min, bit depth that of max-min
+		t.Fatal(err)
+	}
+	if _, err := f.SetValue(0, lo); err != nil {
+		t.Fatal(err)
+	}
+	vq1WitRange(t, f, pql.EQ, lo, 0)
+	vq1WitRange(t, f, pql.LTE, lo+5, 0)
+	b := &bsiGroup{Name: "b", Type: bsiGroupTypeInt, Min: lo, Max: -4611686018427387904, Base: lo, BitDepth: 62}
+	if got := b.bitDepthMin(); got > lo {
+		t.Fatalf("bitDepthMin() with base %d depth 62 = %d, want a value <= base", lo, got)
+	}
+}
